@@ -4,6 +4,7 @@ package gen
 import (
 	"bytes"
 	"errors"
+	"fmt"
 	"math"
 	"math/rand"
 
@@ -13,6 +14,8 @@ import (
 type G struct {
 	R       *rand.Rand
 	Buffers []types.Buffer
+	Errors  []error
+	byHash  map[uint64][]types.Value
 }
 
 func New(seed int64) *G {
@@ -20,7 +23,56 @@ func New(seed int64) *G {
 	for i := 0; i < 3; i++ {
 		g.Buffers = append(g.Buffers, types.NewBuffer(bytes.NewBuffer([]byte{byte(i)})))
 	}
+	// errors: plain ones, and wrappers whose chain reaches a plain one (errors.Is relates them) with
+	// a different or an identical message
+	for _, s := range smallStrings {
+		g.Errors = append(g.Errors, errors.New(s))
+	}
+	for i := 0; i < 4; i++ {
+		g.Errors = append(g.Errors, fmt.Errorf("a%w", g.Errors[i]), fmt.Errorf("%w", g.Errors[i]), &wrapErr{msg: smallStrings[i+1], inner: g.Errors[i]})
+	}
+	// collision classes: scalars of different kinds whose hash bytes coincide
+	g.byHash = map[uint64][]types.Value{}
+	cands := []types.Value{
+		types.NewBinary([]byte{1}), types.NewBoolean(true), types.NewError(errors.New("\x01")), types.NewInt8(1), types.NewUint8(1), types.NewString("\x01"),
+		types.NewBinary([]byte{0}), types.NewBoolean(false), types.NewError(errors.New("\x00")), types.NewInt8(0), types.NewUint8(0), types.NewString("\x00"),
+		types.NewInt(0), types.NewInt64(0), types.NewUint(0), types.NewUint64(0), types.NewFloat64(0), types.NewBinary(make([]byte, 8)), types.NewString(string(make([]byte, 8))),
+		types.NewInt(1), types.NewInt64(1), types.NewUint(1), types.NewUint64(1),
+		types.NewInt(2), types.NewInt64(2), types.NewUint(2), types.NewUint64(2),
+		types.NewInt16(1), types.NewUint16(1), types.NewInt16(0), types.NewUint16(0), types.NewBinary([]byte{0, 0}),
+		types.NewInt32(0), types.NewUint32(0), types.NewFloat32(0), types.NewInt32(1), types.NewUint32(1), types.NewInt32(3), types.NewUint32(3),
+		types.NewString("a"), types.NewBinary([]byte("a")), types.NewError(errors.New("a")), types.NewInt8(97), types.NewUint8(97),
+		types.NewString(""), types.NewBinary(nil), types.NewError(errors.New("")), types.NewSlice(), types.NewMap(),
+	}
+	for _, c := range cands {
+		g.byHash[c.Hash()] = append(g.byHash[c.Hash()], c)
+	}
 	return g
+}
+
+type wrapErr struct {
+	msg   string
+	inner error
+}
+
+func (w *wrapErr) Error() string { return w.msg }
+func (w *wrapErr) Unwrap() error { return w.inner }
+
+// Collide returns a value of another kind with the same hash as v, or nil.
+func (g *G) Collide(v types.Value) types.Value {
+	if v == nil {
+		return nil
+	}
+	var out []types.Value
+	for _, c := range g.byHash[v.Hash()] {
+		if c.Kind() != v.Kind() {
+			out = append(out, c)
+		}
+	}
+	if len(out) == 0 {
+		return nil
+	}
+	return out[g.R.Intn(len(out))]
 }
 
 var smallStrings = []string{"", "\x01", "a", "b", "ab", "a\x00", "\x00", "\xff", "id", "é"}
@@ -55,7 +107,7 @@ func (g *G) Scalar() types.Value {
 	case 2:
 		return types.NewBoolean(r.Intn(2) == 0)
 	case 3:
-		return types.NewError(errors.New(smallStrings[r.Intn(len(smallStrings))]))
+		return types.NewError(g.Errors[r.Intn(len(g.Errors))])
 	case 4:
 		if r.Intn(6) == 0 {
 			return types.NewInt([]int{math.MinInt64, math.MaxInt64}[r.Intn(2)])
@@ -187,7 +239,11 @@ func (g *G) Map(depth int) types.Value {
 	n := g.R.Intn(4)
 	m := types.NewMapWithSize(n)
 	for i := 0; i < n; i++ {
-		m.Set(g.Key(depth), g.Value(depth))
+		if g.R.Intn(5) == 0 {
+			m.Set(g.Key(depth), nil)
+		} else {
+			m.Set(g.Key(depth), g.Value(depth))
+		}
 	}
 	if g.R.Intn(3) == 0 {
 		return m
@@ -222,12 +278,16 @@ func (g *G) Perturb(v types.Value, depth int) types.Value {
 				k := keys[r.Intn(len(keys))]
 				m.Set(k, g.Perturb(x.Get(k), depth-1))
 			}
-		case 2: // replace a key by another one (possibly colliding)
+		case 2: // replace a key by another one, preferably one with the same hash
 			if len(keys) > 0 {
 				k := keys[r.Intn(len(keys))]
 				val := x.Get(k)
 				m.Delete(k)
-				m.Set(g.Key(0), val)
+				if c := g.Collide(k); c != nil && r.Intn(4) > 0 {
+					m.Set(c, val)
+				} else {
+					m.Set(g.Key(0), val)
+				}
 			}
 		case 3:
 			m.Set(g.Key(0), g.Value(0))
@@ -241,8 +301,20 @@ func (g *G) Perturb(v types.Value, depth int) types.Value {
 		}
 		return m.Immutable()
 	}
-	if r.Intn(2) == 0 {
+	if e, ok := v.(types.Error); ok && r.Intn(2) == 0 { // an error related to v by wrapping
+		for _, i := range r.Perm(len(g.Errors)) {
+			if c := g.Errors[i]; errors.Is(c, e.Unwrap()) || errors.Is(e.Unwrap(), c) {
+				return types.NewError(c)
+			}
+		}
+	}
+	switch r.Intn(3) {
+	case 0:
 		return v
+	case 1:
+		if c := g.Collide(v); c != nil {
+			return c
+		}
 	}
 	return g.Value(0)
 }
